@@ -14,7 +14,9 @@ meaning (`build_nary_script`: accepted => same meaning, else rejected), one unde
 term-carrying command, bare or under `!` annotations, with its declared-name control (`undeclared_case`); command SEQUENCES
 read by one parser object through `get_command_generator` (`run_command_sequences`): declarations, a command rejected while a
 binder of a name is open after sibling binders of the same name were closed (let / quantifier / define-fun parameter mixes,
-nesting), then valid probes mentioning the name -- read as the text says and as a fresh parser reads them.
+nesting), then valid probes mentioning the name -- read as the text says and as a fresh parser reads them; chains of
+definitions with equally named and sorted parameters applied to each other's parameters in another order
+(`build_defchain_script`).
 
 K: the implementation's `get_script` result (wire encoding of every command argument) against
 the Lean model `Impl.Parser` (driver request `pread <hex text>`), literal comparison after
@@ -49,7 +51,8 @@ RULE = ("independently generated SMT-LIB scripts (nested/parallel/shadowing let,
         "undeclared-name stream: one undeclared name (bare or under ! annotations) in a String/Int/Bool/Real/BV/Array "
         "position of every term-carrying command, with the declared-name control.  Command-sequence stream: one parser object "
         "reads declarations, one rejected command (sibling binders of one name closed, then one open at the failure), then "
-        "valid probes.")
+        "valid probes.  Definition-chain stream: 2-4 definitions with equally named and sorted parameters, the later ones applying the "
+        "earlier ones to their parameters in another order or to compound terms over them.")
 ASSUMPTIONS = [
     "arrays: finitely supported interpretations only; reals are rationals",
     "interpretations under which a division by zero is evaluated are skipped",
@@ -1325,6 +1328,86 @@ class ScriptGen:
             self.cmds.append((["assert", body], ("assert", db)))
         if r.random() < 0.5:
             self.cmds.append((["check-sat"], ("plain", "check-sat")))
+        return self
+
+    def build_defchain_script(self):
+        """2-4 definitions whose parameters share names AND sorts; the later ones apply the earlier ones to their own parameters
+        in another order, or to compound terms that mention parameters of later positions; then the definitions are applied to
+        declared constants.  (An application substitutes all arguments simultaneously.)"""
+        r, m = self.rng, self.m
+        self.configure(r.choice([("int",), ("int",), ("real",), ("bv",), ("int", "real")]), False)
+        self.prelude()
+        T = r.choice([t for t in self.value_types() if t != B and (t[0] != "V" or t[1] in (2, 4))])
+        for t in [T, T, T, B]:
+            self.declare_const(t)
+        np = r.choice([2, 2, 3])
+        pnames = []
+        while len(pnames) < np:
+            n = self.binder_name(self.scope, pnames) if r.random() < 0.3 else self.fresh_name(self.scope, pnames)
+            if n not in pnames:
+                pnames.append(n)
+        sub = "bvsub" if T[0] == "V" else "-"
+        add = "bvadd" if T[0] == "V" else "+"
+        defs = []
+        for k in range(r.choice([2, 3, 3, 4])):
+            n = self.fresh_name(self.scope, pnames)
+            order = list(pnames)
+            if r.random() < 0.3:
+                r.shuffle(order)                     # the same names at other positions
+            params, new, psx = [], dict(self.scope), []
+            for pn in order:
+                u = self.new_uid()
+                params.append((u, T))
+                new[pn] = Entry("param", T, u)
+                psx.append([self.symtok(pn), self.sort_sx(T)])
+            P = lambda pn: (self.symtok(pn), self.name_den(pn, new[pn]))
+            self._params_now = params
+            if not defs or r.random() < 0.15:
+                a, b = r.sample(order, 2)
+                body = self.ap(sub, P(a), P(b))
+                if r.random() < 0.5:
+                    body = self.ap(add, body, self.ap(sub, P(b), self.lit(T)))
+                if np == 3 and r.random() < 0.6:
+                    body = self.ap("ite", self.ap("eq", P(order[2]), P(a)), body, P(order[2]))
+            else:
+                fn, fparams, fbody = r.choice(defs)
+                perm = list(order)
+                while perm == order or r.random() < 0.3:
+                    r.shuffle(perm)
+                    if len(set(perm)) == 1:
+                        break
+                args = []
+                for i in range(len(fparams)):
+                    if r.random() < 0.65:
+                        args.append(P(perm[i]))
+                    else:
+                        later = order[min(i + 1, len(order) - 1):]
+                        args.append(self.ap(r.choice([add, sub]), P(r.choice(later)), P(r.choice(order))))
+                self.tags.add("define-fun-call")
+                body = ([self.symtok(fn)] + [x[0] for x in args],
+                        (lambda pe, fparams=fparams, fbody=fbody, args=args:
+                         fbody({u: x[1](pe) for (u, _), x in zip(fparams, args)})))
+                if r.random() < 0.4:
+                    body = self.ap(r.choice([add, sub]), body, P(r.choice(order)))
+            self._params_now = []
+            sx, db = body
+            self.scope[n] = Entry("def", T, (params, db, set()))
+            self.tags.add("defchain-%d" % (k + 1))
+            self.cmds.append((["define-fun", self.symtok(n), psx, self.sort_sx(T), sx], ("define-fun", n, params, T, db)))
+            defs.append((n, params, db))
+        consts = [x for x, e in self.scope.items() if e.kind == "sym" and e.ty == T]
+        for _ in range(r.choice([1, 2, 2])):
+            fn, fparams, fbody = r.choice(defs[1:] if r.random() < 0.8 else defs)
+            args = []
+            for _i in fparams:
+                c = r.choice(consts)
+                args.append((self.symtok(c), self.name_den(c, self.scope[c])) if r.random() < 0.8 else self.lit(T))
+            call = ([self.symtok(fn)] + [x[0] for x in args],
+                    (lambda pe, fparams=fparams, fbody=fbody, args=args: fbody({u: x[1](pe) for (u, _), x in zip(fparams, args)})))
+            c = r.choice(consts)
+            rel = "eq" if not is_num(T) or r.random() < 0.4 else r.choice(["<", "<=", ">"])
+            body = self.ap(rel, call, (self.symtok(c), self.name_den(c, self.scope[c])))
+            self.cmds.append((["assert", body[0]], ("assert", body[1])))
         return self
 
     # operators with more arguments than two: (token, needed theory, what the STANDARD says, accepted by the parser today)
@@ -3023,6 +3106,14 @@ def run(ctx):
         text = render_script(ctx.rng, [c[0] for c in g.cmds], fancy=ctx.rng.random() < 0.2)
         check_script(ctx, g, text, ig, lines, meta, "nary", std_always=True, n_interps=8)
     mark("nary")
+    for i in range((40 if short else 120) if quick else 1200):
+        # definitions with equally named and sorted parameters applied to each other's parameters in another order
+        if not short and ctx.time_left() < (45 if quick else 300):
+            break
+        g = gen_script(ctx.rng, "strict", "build_defchain_script")
+        text = render_script(ctx.rng, [c[0] for c in g.cmds], fancy=ctx.rng.random() < 0.2)
+        check_script(ctx, g, text, ig, lines, meta, "define-chain", n_interps=6)
+    mark("define-chain")
     run_undeclared(ctx, (80 if short else 220) if quick else 2500, forced=short)
     mark("undeclared")
     run_command_sequences(ctx, ig, lines, meta, (80 if short else 250) if quick else 2500, forced=short)
